@@ -122,6 +122,19 @@ func CheckC16(g Cfg, prev, cur *Obs, o Op, out Outcome, led *Ledger) []Failure {
 			bad("c16-custody-delegation", "delegation %d: deposited %d, withdrawn %d, still held %d", d.ID, in, outv, d.Stake)
 		}
 	}
+	// a withdrawal must not fail with an internal (non-revert) error, and a delegation that is due (not started, or ended)
+	// must be paid its whole stake
+	if prev != nil && (o.K == "WS" || o.K == "WD") && out.Class >= 2 {
+		bad("c16-withdrawal-internal-error", "%s fails with an internal error: %s", o.Line(), out.Err)
+	}
+	if prev != nil && o.K == "WD" {
+		for _, d := range prev.Dels {
+			if d.ID == o.A && d.Stake > 0 && !d.FlagsErr && (!d.Started || d.Ended) && (out.Class != 0 || out.Val != d.Stake) {
+				bad("c16-due-withdrawal-refused", "delegation %d (stake %d, started %v, ended %v) is due but the withdrawal gives class %d, %d VET: %s",
+					d.ID, d.Stake, d.Started, d.Ended, out.Class, out.Val, out.Err)
+			}
+		}
+	}
 	// gating of a successful withdrawal, judged on the state before it
 	if prev != nil && out.Class == 0 && out.Val > 0 {
 		switch o.K {
@@ -243,6 +256,15 @@ func CheckC17(g Cfg, prev, cur *Obs, o Op, out Outcome, signalled map[thor.Addre
 	}
 	if prev == nil {
 		return fs
+	}
+	if signalled == nil && o.K == "B" {
+		// native level: the status SyncPOS returns
+		if out.Val&4 != 0 && prev.ASize <= 101 {
+			bad("c17-syncpos-error", "SyncPOS fails at block %d with %d active validators (max %d): %s — the whole epoch transition is skipped", cur.Blk, prev.ASize, cur.MBP, out.Err)
+		}
+		if out.Val&1 == 0 && leaderKey(prev.Leaders) != leaderKey(cur.Leaders) {
+			bad("c17-updates-flag-missed", "block %d changed the leader group / weights but SyncPOS reports Updates=false", cur.Blk)
+		}
 	}
 	// evolution only at epoch boundaries
 	epochBlock := o.K == "B" && out.Class == 0 && cur.Blk%g.Epoch == 0
